@@ -438,6 +438,56 @@ class Code311(Code310):
         if type(self) == Code311:
             self.check()
 
+    def encode_lineno_tab(self):
+        """
+        Convert a list of (offset, line_number) pairs in co_linetable into
+        the 3.11+ location table (Objects/locations.md): one "no column"
+        entry (code 13: a signed varint line delta, no columns) for every
+        run of up to 8 code units of a range; code before the first entry
+        gets "no location" entries (code 15).
+        """
+
+        def svarint(value):
+            value = (-value << 1) | 1 if value < 0 else value << 1
+            out = bytearray()
+            while value >= 64:
+                out.append(0x40 | (value & 63))
+                value >>= 6
+            out.append(value)
+            return out
+
+        table = list(self.co_linetable)
+        code_len = len(self.co_code)
+        co_linetable = bytearray()
+        prev_line_number = self.co_firstlineno
+
+        def emit(code, start, end, line_delta):
+            if (start | end) & 1:
+                raise ValueError(
+                    "3.11+ line table offsets must be even; got %d, %d" % (start, end)
+                )
+            units = (end - start) // 2
+            while units > 0:
+                n = min(units, 8)
+                co_linetable.append(0x80 | (code << 3) | (n - 1))
+                if code == 13:
+                    co_linetable.extend(svarint(line_delta))
+                    line_delta = 0
+                units -= n
+
+        if table:
+            emit(15, 0, table[0][0], 0)
+        for i, (offset, line_number) in enumerate(table):
+            if i + 1 < len(table):
+                end_offset = table[i + 1][0]
+            else:
+                end_offset = max(code_len, offset)
+            emit(13, offset, end_offset, line_number - prev_line_number)
+            if end_offset > offset:
+                prev_line_number = line_number
+
+        self.co_linetable = bytes(co_linetable)
+
     def to_native(self):
         if not (PYTHON_VERSION_TRIPLE >= (3, 11)):
             raise TypeError(
